@@ -233,16 +233,19 @@ func wfMemFact(arr *Term, sort string, ctr *Term) *Term {
 	es := arrayElemSort(sort)
 	l := BVar("wl", "Loc")
 	sel := App("select", es, arr, l)
+	// only locations inside allocated objects are constrained: cells of objects that do not
+	// exist yet are unconstrained (their contents are fixed later by the allocating code)
+	alloc := Lt(App("root", "Int", l), ctr)
 	switch {
 	case es == "Loc":
-		return Forall([]*Term{l}, Lt(App("root", "Int", sel), ctr))
+		return Forall([]*Term{l}, Imp(alloc, Lt(App("root", "Int", sel), ctr)))
 	case es == "Slice":
-		return Forall([]*Term{l}, And(Lt(App("root", "Int", App("sarr", "Loc", sel)), ctr), Le(IntLit(0), App("slen", "Int", sel)),
-			Le(App("slen", "Int", sel), App("scap", "Int", sel)), Le(IntLit(0), App("soff", "Int", sel))))
+		return Forall([]*Term{l}, Imp(alloc, And(Lt(App("root", "Int", App("sarr", "Loc", sel)), ctr), Le(IntLit(0), App("slen", "Int", sel)),
+			Le(App("slen", "Int", sel), App("scap", "Int", sel)), Le(IntLit(0), App("soff", "Int", sel)))))
 	case strings.HasPrefix(es, "(Array ") && arrayElemSort(es) == "Loc":
 		ks := es[len("(Array ") : len(es)-len(" Loc)")]
 		k := BVar("wk", ks)
-		return Forall([]*Term{l, k}, Lt(App("root", "Int", App("select", "Loc", sel, k)), ctr))
+		return Forall([]*Term{l, k}, Imp(alloc, Lt(App("root", "Int", App("select", "Loc", sel, k)), ctr)))
 	}
 	return nil
 }
